@@ -227,6 +227,12 @@ def inlineBodyAggregate (sg : Single) (atom : Atom) (uv : UniqueVars) : Except S
     else
       match bodyBAggs sg.body with
       | (.bagg _ _ ilg ifn ielems irg) :: _ => do
+        -- fix (known_findings.json `fixed:`): a variable that joins the helper's body with its aggregate has to be a
+        -- head variable
+        let aggVars := (bElemsTerms ielems).flatMap Term.vars
+        let bodyVars := (sg.body.filter fun b => match b with | .lit (_, .bagg ..) => false | _ => true).flatMap BLit.vars
+        let headVars := sg.args.flatMap Term.vars
+        if (aggVars.filter fun v => bodyVars.contains v).any (fun v => !headVars.contains v) then return (atom, uv)
         let resultFn := if ifn == .sum then AggFun.sum else f
         if !(good ifn).contains f then return (atom, uv)
         -- fix (known_findings.json `fixed:`): an inner #sum+ ignores negative weights, an outer #sum would count them
@@ -250,6 +256,17 @@ def inlineBodyAggregate (sg : Single) (atom : Atom) (uv : UniqueVars) : Except S
             | none => return (atom, uv)
             | some (re, rc) =>
               if rc.1 != .pos then return (atom, uv)
+              -- fix (known_findings.json `fixed:`): the arguments of the helper atom have to be distinct variables
+              match rc.2 with
+              | .sym (.fn _ cargs _) =>
+                if cargs.any (fun a => !a.isVar) || cargs.any (fun a => (cargs.filter (· == a)).length != 1) then
+                  return (atom, uv)
+                -- fix (known_findings.json `fixed:`): the element's tuple has to tell the helper's groups apart
+                let tupleVars := re.1.tail.flatMap Term.vars
+                if ((List.range cargs.length).zip cargs).any (fun (ia : Nat × Term) =>
+                    ia.1 != hvPos && !(ia.2.vars.all fun v => tupleVars.contains v)) then
+                  return (atom, uv)
+              | _ => pure ()
               let rest := elems.filter fun e => !elemEq e re
               if ← rest.anyM (fun x => potUnifySeq x.1 re.1) then return (atom, uv)
               match rc.2 with
@@ -501,7 +518,9 @@ def inlineMinimize (tuples : List (List Term)) (stm : Stm) : Except String (List
         if Term.var ev != weight then return ([stm], false)
         if (stm.vars.filter (· == ev)).length != 2 then return ([stm], false)
         let replaceTerms := weight :: prio :: terms
-        if ← (tuples.filter (· != replaceTerms)).anyM (fun x => potUnifySeq x replaceTerms) then
+        -- fix (known_findings.json `fixed:`): only the statement's own tuple is left out (`list.remove`: the first equal
+        -- one), not an equal tuple of another statement
+        if ← (tuples.erase replaceTerms).anyM (fun x => potUnifySeq x replaceTerms) then
           return ([stm], false)
         let agg : Atom := .bagg al ac lg f es rg
         let rbody := body.filter fun b => match b with
